@@ -11,8 +11,10 @@
  *   A:loc:size   T:idx:loc:size     append / set
  *   W:flags:count                   sqfs_frag_table_write at the end of the file, super.flags / fragment_entry_count before
  *   N            drop the object, create a new one
+ *   C            other = sqfs_copy(current object) (a previous other is dropped); the current object stays current
+ *   X            swap current and other (no-op printed as X? if there is no other)
  * stdout, one line per case: R=<ret> L=<ret>[:start:size:pad0] S=<n> A=<ret>:<index> T=<ret>
- *                            W=<ret>[:start:count:flags:<appended bytes hex>] N        (props/C08/frag_driver.ml prints the same)
+ *                            W=<ret>[:start:count:flags:<appended bytes hex>] N C=<0|-1> X    (props/C08/frag_driver.ml prints the same)
  */
 #include "config.h"
 
@@ -188,7 +190,7 @@ static void do_read(sqfs_frag_table_t *tbl, memfile_t *f, sqfs_compressor_t *unc
 static void run_case(char *line)
 {
 	sqfs_compressor_t *cmp = toy_create(0), *uncmp = toy_create(1);
-	sqfs_frag_table_t *tbl = sqfs_frag_table_create(0);
+	sqfs_frag_table_t *tbl = sqfs_frag_table_create(0), *other = NULL;
 	unsigned long long cflags = 0, cstart = 0, ccount = 0, wbase = 0;
 	unsigned char *img;
 	memfile_t *f;
@@ -252,6 +254,24 @@ static void run_case(char *line)
 			sep();
 			printf("N");
 			break;
+		case 'C':
+			if (other != NULL)
+				sqfs_drop(other);
+			other = sqfs_copy(tbl);
+			sep();
+			printf("C=%d", other == NULL ? -1 : 0);
+			break;
+		case 'X':
+			sep();
+			if (other == NULL) {
+				printf("X?");
+			} else {
+				sqfs_frag_table_t *tmp = tbl;
+				tbl = other;
+				other = tmp;
+				printf("X");
+			}
+			break;
 		case 'A': {
 			unsigned long long loc = num(&p), sz = num(&p);
 			sqfs_u32 index = 0xDEADBEEF;
@@ -304,6 +324,8 @@ static void run_case(char *line)
 		}
 	}
 	putchar('\n');
+	if (other != NULL)
+		sqfs_drop(other);
 	sqfs_drop(tbl);
 	sqfs_drop(f);
 	sqfs_drop(cmp);
